@@ -906,6 +906,12 @@ impl<C: Cursor> MergingCursor<C> {
 }
 
 // ================================================================ the cursor
+proof fn lemma_total_is_len<C: Cursor>(cs: Seq<C>)
+    requires mergeable(cs)
+    ensures merged(cs).len() == total(cs), total(cs) >= 0
+{
+}
+
 proof fn lemma_sum_only_root<C>(cs: Seq<C>, f: spec_fn(C) -> int)
     requires cs.len() >= 1, forall|i: int| 1 <= i < cs.len() ==> f(#[trigger] cs[i]) == 0
     ensures sumf(cs, f) == f(cs[0])
@@ -942,6 +948,23 @@ impl<C: Cursor> MergingCursor<C> {
             None => allq(cs, |c: C| c.pos() == c.ents().len()),
         }
     }
+    // Reverse rest states, mirrored: (A) every child at its last entry <= the root's entry (or all before-first);
+    // (B) just after seek_to_last: root parked after-last, the others on their last entry
+    spec fn rev_a(&self) -> bool {
+        let cs = self.cursors@;
+        &&& heap_from(cs, Comparator::Reverse, 0)
+        &&& match key_of_child(cs[0]) {
+            Some(e) => allq(cs, |c: C| c.pos() == cle(c.ents(), e.0, e.1) - 1),
+            None => allq(cs, |c: C| c.pos() == -1),
+        }
+    }
+    spec fn rev_b(&self) -> bool {
+        let cs = self.cursors@;
+        &&& cs[0].pos() == cs[0].ents().len()
+        &&& forall|i: int| 1 <= i < cs.len() ==> (#[trigger] cs[i]).pos() == cs[i].ents().len() - 1
+        &&& heap_from(cs, Comparator::Reverse, 1)
+        &&& forall|i: int| 1 <= i < cs.len() ==> !lessk(Comparator::Reverse, key_at((#[trigger] cs[i]).ents(), cs[i].ents().len() - 1), key_at(cs[0].ents(), cs[0].ents().len() - 1))
+    }
     spec fn fwd_b(&self) -> bool {
         let cs = self.cursors@;
         &&& cs[0].pos() == -1
@@ -959,7 +982,7 @@ impl<C: Cursor> Cursor for MergingCursor<C> {
     spec fn wf_base(&self) -> bool { self.base() }
     spec fn wf(&self) -> bool {
         &&& self.base() && self.kids_wf()
-        &&& match self.comparator { Comparator::Forward => self.fwd_a() || self.fwd_b(), Comparator::Reverse => false }
+        &&& match self.comparator { Comparator::Forward => self.fwd_a() || self.fwd_b(), Comparator::Reverse => self.rev_a() || self.rev_b() }
     }
     spec fn key_spec(&self) -> Option<(Seq<u8>, u64)> { if self.n() > 0 { self.cursors@[0].key_spec() } else { None } }
     spec fn val_spec(&self) -> Option<Seq<u8>> { if self.n() > 0 { self.cursors@[0].val_spec() } else { None } }
@@ -972,7 +995,24 @@ impl<C: Cursor> Cursor for MergingCursor<C> {
         if self.wf() {
             assert forall|i: int| 0 <= i < cs.len() implies (#[trigger] cs[i]).wf() by { assert(allq(cs, |c: C| c.wf())); }
             cs[0].lemma_cursor_laws();
-            if self.fwd_b() {
+            lemma_total_is_len(cs);
+            if self.comparator == Comparator::Reverse {
+                if self.rev_b() {
+                    lemma_sum_root_others(cs, |c: C| c.pos(), |c: C| c.ents().len() as int, 0, -1);
+                } else {
+                    match key_of_child(cs[0]) {
+                        Some(e) => {
+                            lemma_sum_cle(cs, 0, cs[0].pos());
+                            lemma_sum_root_others(cs, |c: C| c.pos(), |c: C| cle(c.ents(), e.0, e.1), -1, -1);
+                            lemma_member_rank(cs, 0, cs[0].pos());
+                        }
+                        None => {
+                            lemma_sum_root_others(cs, |c: C| c.pos(), |c: C| 0int, -1, -1);
+                            lemma_sum_zero(cs);
+                        }
+                    }
+                }
+            } else if self.fwd_b() {
                 lemma_sum_only_root(cs, |c: C| c.pos());
             } else {
                 match key_of_child(cs[0]) {
@@ -1040,10 +1080,135 @@ impl<C: Cursor> Cursor for MergingCursor<C> {
 //@ end
 
 //@ extract sst/src/merging_cursor.rs | impl Cursor for MergingCursor<C> :: fn seek_to_first
-//@ external-body
+//@ rewrite X13 `for cursor in self.cursors.iter_mut() {` => `for idx in 0..self.cursors.len() {`
+//@ rewrite X13 `cursor.seek_to_first()?;` => `self.cursors[idx].seek_to_first()?;`
+//@ rewrite X13 `cursor.next()?;` => `self.cursors[idx].next()?;`
+//@ bodystart <<
+        let ghost low = |x: Ent| false;
+//@ >>
+//@ loop 0 <<
+            invariant
+                self.comparator == Comparator::Forward, self.cursors@.len() == old(self).cursors@.len(),
+                old(self).base(), all_base(self.cursors@), same_tables(self.cursors@, old(self).cursors@), low == (|x: Ent| false),
+                forall|j: int| 0 <= j < idx ==> at_cut(#[trigger] self.cursors@[j], low),
+                forall|j: int| idx <= j < self.cursors@.len() ==> self.cursors@[j] == old(self).cursors@[j],
+//@ >>
+//@ startloop 0 <<
+            let ghost pre = self.cursors@;
+            proof { assert(pre[idx as int].wf_base()); }
+//@ >>
+//@ endloop 0 <<
+            proof {
+                let c = self.cursors@[idx as int];
+                c.lemma_cursor_laws();
+                assert(at_cut(c, low));
+                assert forall|j: int| 0 <= j < idx + 1 implies at_cut(#[trigger] self.cursors@[j], low) by { if j < idx { assert(self.cursors@[j] == pre[j]); } }
+            }
+//@ >>
+//@ before `self.heapify();` <<
+        let ghost f1 = self.cursors@;
+        proof { lemma_same_tables(f1, old(self).cursors@); }
+//@ >>
+//@ after `self.heapify();` <<
+        let ghost f2 = self.cursors@;
+        proof {
+            assert(heap_from(f2, Comparator::Forward, 0));
+            lemma_family_invariants(f2, f1);
+            lemma_family_merged(f1, f2);
+            assert(allq(f1, |c: C| at_cut(c, low)));
+            assert(allq(f2, |c: C| at_cut(c, low)));
+            assert forall|i: int| 0 <= i < f2.len() implies (#[trigger] f2[i]).key_spec() == key_of_child(f2[i]) && f2[i].pos() == 0 && f2[i].wf() by {
+                assert(at_cut(f2[i], low)); f2[i].lemma_cursor_laws();
+                if f2[i].pos() > 0 { assert(low(f2[i].ents()[0])); }
+            }
+            assert forall|i: int| 1 <= i < f2.len() implies !lessk(Comparator::Forward, key_at((#[trigger] f2[i]).ents(), 0), key_at(f2[0].ents(), 0)) by {
+                lemma_root_least(f2, Comparator::Forward, i);
+            }
+        }
+//@ >>
+//@ after `self.cursors[0].seek_to_first()?;` <<
+            proof {
+                let f3 = self.cursors@;
+                assert(same_tables(f3, f2)) by { assert forall|i: int| 0 <= i < f3.len() implies (#[trigger] f3[i]).ents() == f2[i].ents() by { if i > 0 { assert(f3[i] == f2[i]); } } }
+                lemma_same_tables(f3, f2);
+                assert(all_base(f3)) by { assert forall|i: int| 0 <= i < f3.len() implies (#[trigger] f3[i]).wf_base() by { if i > 0 { assert(f3[i] == f2[i]); } } }
+                assert(allq(f3, |c: C| c.wf())) by { assert forall|i: int| 0 <= i < f3.len() implies (#[trigger] f3[i]).wf() by { if i > 0 { assert(f3[i] == f2[i]); } } }
+                assert forall|j: int| 1 < j < f3.len() && (j - 1) / 2 >= 1 implies !lessk(Comparator::Forward, keyof(f3, j), #[trigger] keyof(f3, (j - 1) / 2)) by {
+                    assert(f3[j] == f2[j] && f3[(j - 1) / 2] == f2[(j - 1) / 2]);
+                    assert(!lessk(Comparator::Forward, keyof(f2, j), keyof(f2, (j - 1) / 2)));
+                }
+                assert forall|i: int| 1 <= i < f3.len() implies (#[trigger] f3[i]).pos() == 0
+                    && !lessk(Comparator::Forward, key_at(f3[i].ents(), 0), key_at(f3[0].ents(), 0)) by { assert(f3[i] == f2[i]); }
+                assert(self.fwd_b());
+                lemma_sum_only_root(f3, |c: C| c.pos());
+            }
+//@ >>
 //@ end
 //@ extract sst/src/merging_cursor.rs | impl Cursor for MergingCursor<C> :: fn seek_to_last
-//@ external-body
+//@ rewrite X13 `for cursor in self.cursors.iter_mut() {` => `for idx in 0..self.cursors.len() {`
+//@ rewrite X13 `cursor.seek_to_last()?;` => `self.cursors[idx].seek_to_last()?;`
+//@ rewrite X13 `cursor.prev()?;` => `self.cursors[idx].prev()?;`
+//@ bodystart <<
+        let ghost high = |x: Ent| false;
+//@ >>
+//@ loop 0 <<
+            invariant
+                self.comparator == Comparator::Reverse, self.cursors@.len() == old(self).cursors@.len(),
+                old(self).base(), all_base(self.cursors@), same_tables(self.cursors@, old(self).cursors@), high == (|x: Ent| false),
+                forall|j: int| 0 <= j < idx ==> at_cut_rev(#[trigger] self.cursors@[j], high),
+                forall|j: int| idx <= j < self.cursors@.len() ==> self.cursors@[j] == old(self).cursors@[j],
+//@ >>
+//@ startloop 0 <<
+            let ghost pre = self.cursors@;
+            proof { assert(pre[idx as int].wf_base()); }
+//@ >>
+//@ endloop 0 <<
+            proof {
+                let c = self.cursors@[idx as int];
+                c.lemma_cursor_laws();
+                assert(at_cut_rev(c, high));
+                assert forall|j: int| 0 <= j < idx + 1 implies at_cut_rev(#[trigger] self.cursors@[j], high) by { if j < idx { assert(self.cursors@[j] == pre[j]); } }
+            }
+//@ >>
+//@ before `self.heapify();` <<
+        let ghost f1 = self.cursors@;
+        proof { lemma_same_tables(f1, old(self).cursors@); }
+//@ >>
+//@ after `self.heapify();` <<
+        let ghost f2 = self.cursors@;
+        proof {
+            assert(heap_from(f2, Comparator::Reverse, 0));
+            lemma_family_invariants(f2, f1);
+            lemma_family_merged(f1, f2);
+            assert(allq(f1, |c: C| at_cut_rev(c, high)));
+            assert(allq(f2, |c: C| at_cut_rev(c, high)));
+            assert forall|i: int| 0 <= i < f2.len() implies (#[trigger] f2[i]).key_spec() == key_of_child(f2[i]) && f2[i].pos() == f2[i].ents().len() - 1 && f2[i].wf() by {
+                assert(at_cut_rev(f2[i], high)); f2[i].lemma_cursor_laws();
+                if f2[i].pos() < f2[i].ents().len() - 1 { assert(high(f2[i].ents()[f2[i].pos() + 1])); }
+            }
+            assert forall|i: int| 1 <= i < f2.len() implies !lessk(Comparator::Reverse, key_at((#[trigger] f2[i]).ents(), f2[i].ents().len() - 1), key_at(f2[0].ents(), f2[0].ents().len() - 1)) by {
+                lemma_root_least(f2, Comparator::Reverse, i);
+            }
+        }
+//@ >>
+//@ after `self.cursors[0].seek_to_last()?;` <<
+            proof {
+                let f3 = self.cursors@;
+                assert(same_tables(f3, f2)) by { assert forall|i: int| 0 <= i < f3.len() implies (#[trigger] f3[i]).ents() == f2[i].ents() by { if i > 0 { assert(f3[i] == f2[i]); } } }
+                lemma_same_tables(f3, f2);
+                assert(all_base(f3)) by { assert forall|i: int| 0 <= i < f3.len() implies (#[trigger] f3[i]).wf_base() by { if i > 0 { assert(f3[i] == f2[i]); } } }
+                assert(allq(f3, |c: C| c.wf())) by { assert forall|i: int| 0 <= i < f3.len() implies (#[trigger] f3[i]).wf() by { if i > 0 { assert(f3[i] == f2[i]); } } }
+                assert forall|j: int| 1 < j < f3.len() && (j - 1) / 2 >= 1 implies !lessk(Comparator::Reverse, keyof(f3, j), #[trigger] keyof(f3, (j - 1) / 2)) by {
+                    assert(f3[j] == f2[j] && f3[(j - 1) / 2] == f2[(j - 1) / 2]);
+                    assert(!lessk(Comparator::Reverse, keyof(f2, j), keyof(f2, (j - 1) / 2)));
+                }
+                assert forall|i: int| 1 <= i < f3.len() implies (#[trigger] f3[i]).pos() == f3[i].ents().len() - 1
+                    && !lessk(Comparator::Reverse, key_at(f3[i].ents(), f3[i].ents().len() - 1), key_at(f3[0].ents(), f3[0].ents().len() - 1)) by { assert(f3[i] == f2[i]); }
+                assert(self.rev_b());
+                lemma_sum_root_others(f3, |c: C| c.pos(), |c: C| c.ents().len() as int, 0, -1);
+                lemma_total_is_len(f3);
+            }
+//@ >>
 //@ end
 //@ extract sst/src/merging_cursor.rs | impl Cursor for MergingCursor<C> :: fn prev
 //@ external-body
